@@ -35,6 +35,9 @@ type Job struct {
 	Scan bool `json:"scan,omitempty"`
 	// Keyword probe (C13): scan only until the first lexeme or error.
 	ScanFirst int `json:"scanFirst,omitempty"`
+	// Probes (C13): each is scanned completely; reported is the first lexeme that begins at or after ProbeOffset and the error, if any.
+	Probes      [][]byte `json:"probes,omitempty"`
+	ProbeOffset int      `json:"probeOffset,omitempty"`
 	// Conc describes a concurrent job (C18).
 	Conc *ConcJob `json:"conc,omitempty"`
 	// Seq: operation sequences for C16; each is run on a fresh build of the project.
@@ -127,6 +130,18 @@ type Lexeme struct {
 	ValuePanic string `json:"vp,omitempty"`
 }
 
+type ProbeResult struct {
+	LexType  string `json:"t,omitempty"` // empty: no lexeme at or after the offset
+	Begin    int    `json:"b,omitempty"`
+	End      int    `json:"e,omitempty"`
+	Kind     string `json:"k,omitempty"`  // directive kind the keyword maps to
+	KindErr  string `json:"ke,omitempty"` // NewDirectiveType rejected the keyword
+	ErrIndex int    `json:"ei"`           // -1: no error
+	ErrMsg   string `json:"em,omitempty"`
+	Panic    string `json:"p,omitempty"`
+	Lexemes  int    `json:"n"`
+}
+
 type RepeatDiff struct {
 	Iter  int    `json:"iter"`
 	What  string `json:"what"`
@@ -152,22 +167,23 @@ type ConcResult struct {
 }
 
 type Result struct {
-	ID       string       `json:"id"`
-	Dir      string       `json:"dir,omitempty"` // the private project dir (for path normalisation)
-	Accepted bool         `json:"accepted"`
-	Err      *ErrInfo     `json:"err,omitempty"`
-	Panic    *PanicInfo   `json:"panic,omitempty"`
-	Outputs  []Output     `json:"outputs,omitempty"`
-	Files    []FileEvent  `json:"fileEvents,omitempty"`
-	Steps    *StepStats   `json:"steps,omitempty"`
-	Scan     []*Node      `json:"scanTree,omitempty"`
-	Expand   []*Node      `json:"expandTree,omitempty"`
-	Lexemes  []Lexeme     `json:"lexemes,omitempty"`
-	ScanErr  *ErrInfo     `json:"scanErr,omitempty"`
-	Diffs    []RepeatDiff `json:"diffs,omitempty"`
-	SeqDiffs []SeqResult  `json:"seqDiffs,omitempty"`
-	SeqCalls int          `json:"seqCalls,omitempty"`
-	Conc     *ConcResult  `json:"conc,omitempty"`
+	ID       string        `json:"id"`
+	Dir      string        `json:"dir,omitempty"` // the private project dir (for path normalisation)
+	Accepted bool          `json:"accepted"`
+	Err      *ErrInfo      `json:"err,omitempty"`
+	Panic    *PanicInfo    `json:"panic,omitempty"`
+	Outputs  []Output      `json:"outputs,omitempty"`
+	Files    []FileEvent   `json:"fileEvents,omitempty"`
+	Steps    *StepStats    `json:"steps,omitempty"`
+	Scan     []*Node       `json:"scanTree,omitempty"`
+	Expand   []*Node       `json:"expandTree,omitempty"`
+	Lexemes  []Lexeme      `json:"lexemes,omitempty"`
+	ScanErr  *ErrInfo      `json:"scanErr,omitempty"`
+	Diffs    []RepeatDiff  `json:"diffs,omitempty"`
+	SeqDiffs []SeqResult   `json:"seqDiffs,omitempty"`
+	SeqCalls int           `json:"seqCalls,omitempty"`
+	Conc     *ConcResult   `json:"conc,omitempty"`
+	Probes   []ProbeResult `json:"probes,omitempty"`
 	// WorkerErr: the worker could not even set the case up (harness problem, inconclusive).
 	WorkerErr string `json:"workerErr,omitempty"`
 	// Fatal is filled by the driver when the worker died during this job.
